@@ -224,8 +224,8 @@ def unsupported_names(v, inst):
                 out.append(('macNames', e + ' (needs TLS 1.2)'))
     if isinstance(v.maxVersion, tuple) and isinstance(v.minVersion, tuple):
         for e in v.versions:
-            if not v.minVersion <= e <= v.maxVersion:
-                out.append(('versions', repr(e) + ' outside [minVersion, maxVersion]'))
+            if not min(v.minVersion, (3, 3)) <= e <= v.maxVersion:
+                out.append(('versions', repr(e) + ' outside [min(minVersion, (3,3)), maxVersion]'))
     return out
 
 
